@@ -262,7 +262,14 @@ func makeUmemo(twoU, n1 int, t []int) []map[ukey]float64 {
 	for A_2i := range A[2] {
 		Asum := 0.0
 		r2Low := max(0, A_2i.n1-t[0])
-		r2High := (A_2i.twoU - A_2i.n1*(t[0]-A_2i.n1)) / N_2
+		// 2U = n1*(t[0]-n1) + r2*N_2, so 2U <= twoU iff
+		// r2 <= ⌊(twoU - n1*(t[0]-n1)) / N_2⌋. Go's division
+		// truncates toward zero, so handle a negative numerator
+		// (no r2 qualifies) separately.
+		r2High := -1
+		if numer := A_2i.twoU - A_2i.n1*(t[0]-A_2i.n1); numer >= 0 {
+			r2High = numer / N_2
+		}
 		for r2 := r2Low; r2 <= r2High; r2++ {
 			Asum += mathChoose(t[0], A_2i.n1-r2) *
 				mathChoose(t[1], r2)
